@@ -39,17 +39,30 @@ def worker(arg):
     consistent = st["out"]
     diff = []
     placements = ["target"]
-    if len(defs) == 2 and core.pick(block, "placement", 4) == 0:
-        placements.append("lookup-referenced")
+    same_line = len({(d["name"], d["maj"]) for d in defs}) == 1 and all(d["kind"] == "msg" for d in defs) and len(defs) >= 2
+    if same_line and core.pick(block, "placement", 2) == 0:
+        # minor versions of one type split between the target namespace and a lookup directory of the same name (the one
+        # in the lookup directory is referred to by a target, so it is part of the result): the version rules relate
+        # direct and transitive definitions alike, whichever of them is the newer one
+        placements += ["oldest-in-lookup", "newest-in-lookup"]
     for pl in placements:
         fs = files_of(defs)
+        lookups = []
+        if pl != "target":
+            moved = defs[0] if pl == "oldest-in-lookup" else defs[-1]
+            one = files_of([moved])
+            fs = {("l/" + k if k in one else "t/" + k): v for k, v in fs.items()}
+            fs["t/vnd/Zref.1.0.dsdl"] = "vnd.%s.%d.%d x\n@sealed\n" % (moved["name"], moved["maj"], moved["min"])
         with dsdlio.Tree(fs, "c11") as tr:
-            status, res, _ = dsdlio.read_ns(tr.path("vnd"), allow_unregulated=True)
+            if pl == "target":
+                status, res, _ = dsdlio.read_ns(tr.path("vnd"), allow_unregulated=True)
+            else:
+                status, res, _ = dsdlio.read_ns(tr.path("t/vnd"), [tr.path("l/vnd")], allow_unregulated=True)
             if status == "err" and not isinstance(res, pydsdl.InvalidDefinitionError):
-                diff.append(("exception other than InvalidDefinitionError", type(res).__name__, str(res)[:200]))
+                diff.append(("exception other than InvalidDefinitionError", pl, type(res).__name__, str(res)[:200]))
             elif (status == "ok") != consistent:
-                diff.append(("accepted", status == "ok", consistent, str(res)[:200] if status == "err" else None))
-            elif status == "ok" and len(res) != len(defs):
+                diff.append(("accepted (%s)" % pl, status == "ok", consistent, str(res)[:200] if status == "err" else None))
+            elif status == "ok" and pl == "target" and len(res) != len(defs):
                 diff.append(("number of types", len(res), len(defs)))
     r = {"nt": True, "key": core.jhash(tlaval.to_json(defs))}
     if diff:
@@ -102,7 +115,7 @@ def run(ctx):
                 "vs rejected-with-InvalidDefinitionError is compared with the declarative rules. Every case is non-trivial "
                 "(two definitions interact or not); distinct by hash of the set")
     ctx.assumptions = ["TLC's evaluation of the specification", "violations located in lookup namespaces are covered by four "
-                       "fixed scope cases, not enumerated"]
+                       "fixed scope cases; for minor versions of one message type the oldest / newest one is also placed in a same-named lookup directory and referred to"]
     quick = ctx.tier == "quick"
     c02.run_cfg(ctx, "CrossDef", "CrossDef_pairs.cfg", worker, "pairs", mk=lambda blocks: [(b, ctx.seed, 1) for b in blocks])
     c02.run_cfg(ctx, "CrossDef", "CrossDef_chain3.cfg", worker, "chain3", mk=lambda blocks: [(b, ctx.seed, 1) for b in blocks])
